@@ -16,7 +16,7 @@ PROP = dict(
             models=['SuFam3'], tie=o_rad.su_family_tie('SuFam3')),
         obl('C18.suolson.assembly', M, [T + 'usol_shape', T + 'vsol_shape'], models=['SuUsol', 'SuVsol'],
             tie=o_rad.su_assembly_tie, oracle=o_rad.su_table),
-        obl('C18.suolson.marshak', M, [T + 'fam1_solves', T + 'fam2_solves', T + 'fam3_solves'],
+        obl('C18.suolson.marshak', M, [T + 'mode_pair_iff_dispersion', T + 'one_minus_modes', T + 'fam1_solves', T + 'fam2_solves', T + 'fam3_solves'],
             models=['SuFam1', 'SuFam2', 'SuFam3'], oracle=o_rad.su_marshak),
         obl('C18.suolson.conversion', M, [T + 'suolson_conversion_rad', T + 'suolson_conversion_mat', T + 'cLight_close',
                                           T + 'suolson_physical_rad', T + 'suolson_physical_mat', T + 'suolson_physical_marshak'],
